@@ -136,6 +136,31 @@ func (w *World) sweepLint(li *LintInfo, prop string) (res sweepResult) {
 		ex.frame = fs
 	}
 	st := &state{cur: "true", heap: heap}
+	// A lint whose CheckApplies and Execute both carry their own nopanic contract (each verified
+	// against its body as a unit of its own) is linked modularly: the framework's call sequence
+	// is checked against the two contracts - requires of CheckApplies under the framework's
+	// guarantees, then, on the paths where it answered true, its ensures must establish the
+	// requires of Execute. Neither body is executed here.
+	if prop == "C02" {
+		cca, cex := w.funcContract(li.CheckApplies), w.funcContract(li.Execute)
+		if cca != nil && cex != nil && cca.HasProp("C02") && cex.HasProp("C02") && cca.Flags["nopanic"] && cex.Flags["nopanic"] {
+			cca.Used, cex.Used = true, true
+			rs := ex.applyContractTop(li.CheckApplies, cca, args, st, li.Site, true)
+			if len(rs) == 1 {
+				st.cur = u.define("applies", "Bool", and(st.cur, rs[0].T))
+				ex.applyContractTop(li.Execute, cex, args, st, li.Site, false)
+				u.note("CheckApplies and Execute linked by their contracts (bodies verified as units of their own)")
+				res.obls = append(res.obls, u.obls...)
+				cnt := map[string]int{}
+				for _, o := range res.obls {
+					cnt[o.Kind]++
+					o.Name = fmt.Sprintf("C02/lint:%s/safety#%s.%d", li.Name, o.Kind, cnt[o.Kind])
+					o.Func = "lint:" + li.Name
+				}
+				return
+			}
+		}
+	}
 	// Execute runs only after CheckApplies returned true on the same instance and object
 	if ca := li.CheckApplies; ca != nil && ca.Blocks != nil && len(ca.Params) == len(args) {
 		g := u.newFrame(ca, nil, 1)
@@ -248,6 +273,75 @@ func (w *World) sweepLint(li *LintInfo, prop string) (res sweepResult) {
 		o.Func = "lints"
 	}
 	return
+}
+
+// applyContractTop applies a function contract at the top of a sweep (there is no call
+// instruction): requires become obligations, a pure callee's result is its deterministic
+// function, the heap is havoced outside what the assigns clause allows, ensures are assumed
+// (only when `assume` is set: the last call of the sequence needs no postcondition).
+func (f *Frame) applyContractTop(callee *ssa.Function, c *Contract, args []Val, st *state, src string, assume bool) []Val {
+	u := f.u
+	sig := callee.Signature
+	env := u.W.calleeEnv(u, c, callee, sig, args)
+	env.heap, env.oldHeap, env.frame = st.heap, st.heap, f
+	u.ncalls++
+	env.callID = fmt.Sprint(u.ncalls)
+	f.bindLets(env, c)
+	what := funcDisplayName(callee)
+	for _, cl := range c.ClausesOf("requires") {
+		t, err := env.evalBool(cl.Text)
+		if err != nil {
+			u.W.fail("%s:%d: requires of %s: %v", cl.File, cl.Line, c.Key, err)
+			continue
+		}
+		u.oblige("pre@callsite", f.fname, st.cur, t, src, "requires of "+what+" when the framework calls it: "+cl.Text)
+	}
+	if !assume {
+		return nil
+	}
+	pure := c.Flags["pure"]
+	pre := st.heap
+	st.heap = st.heap.clone()
+	if !pure {
+		onlyFresh := false
+		for _, cl := range c.ClausesOf("assigns") {
+			for _, item := range splitTop(cl.Text, ',') {
+				if it := strings.TrimSpace(item); it == `\fresh` || it == `\nothing` {
+					onlyFresh = true
+				} else {
+					onlyFresh = false
+				}
+			}
+		}
+		if onlyFresh {
+			st.heap = u.newHeap(&Link{kind: "freshonly", parent: st.heap})
+		} else {
+			st.heap = u.newHeap(&Link{kind: "havoc", parent: st.heap, keep: append([]string{}, f.localRefs...)})
+			u.bumpHV(st.heap, false)
+		}
+	}
+	var rs []Val
+	if pure && sig.Results().Len() == 1 {
+		rs = []Val{u.W.pureApp(u, c, callee, sig, args, pre)}
+	} else {
+		for i := 0; i < sig.Results().Len(); i++ {
+			t := sig.Results().At(i).Type()
+			x := u.fresh("ret.top", u.D.SortOf(t))
+			u.assumeRange(x, t)
+			rs = append(rs, Val{T: x, Typ: t})
+		}
+	}
+	env.heap, env.oldHeap = st.heap, pre
+	env.setResults(sig, rs)
+	for _, cl := range c.ClausesOf("ensures") {
+		t, err := env.evalBool(cl.Text)
+		if err != nil {
+			u.W.fail("%s:%d: ensures of %s: %v", cl.File, cl.Line, c.Key, err)
+			continue
+		}
+		u.assume(st.cur, t)
+	}
+	return rs
 }
 
 func schematic(w *World, r *Report, prop string) []*Obligation {
